@@ -406,6 +406,10 @@ fn iter_exhaustive(ctx: &Ctx, props: Props, out: &mut ShardOut) {
                     // iterator with the hook's walk of whatever is there
                     let steps = (l + 2) as u8;
                     for pat in 0..(1u32 << steps) {
+                        // the interpreter is ~10^4 times slower: it samples the interleavings
+                        if cfg!(miri) && (pat.wrapping_mul(2654435761).wrapping_add(idx as u32 * 7 + ctx.seed as u32)) % 64 != 0 {
+                            continue;
+                        }
                         for (write, clone_at) in [(false, 255u8), (true, (pat % (steps as u32 + 1)) as u8)] {
                             let mut h = setup.clone();
                             h.push(Op::Iter(IterSpec { list: list as u8, fam, steps, pat, write, clone_at }));
